@@ -64,6 +64,10 @@ def instances(tier, seed):
     for method, ops in (('PIT', PIT_OPS), ('MPS', MPS_OPS), ('SuperNet', SN_OPS)):
         for first in range(len(ops)):
             out.append({'id': f'{method}:first={ops[first]}:len<={L}', 'method': method, 'first': first, 'L': L})
+    # PIT: longer sequences over the group helpers and the rf / dilation switches only (state carried from one phase of the search into the next)
+    sub = ['train_nas_only', 'train_net_only', 'train_net_and_nas', 'train_rf=True', 'train_rf=False', 'train_dilation=True', 'train_dilation=False']
+    for first in sub[:3]:
+        out.append({'id': f'PIT:phases:first={first}:len<={L + 1}', 'method': 'PIT', 'first': PIT_OPS.index(first), 'L': L + 1, 'subset': [PIT_OPS.index(o) for o in sub]})
     return out
 
 
@@ -131,15 +135,21 @@ def apply_ref(method, cls, ref, op):
     """reference semantics of one operation"""
     f = ref['flags']
     nas = ('features', 'rf', 'dilation', 'nas')
+    # ref['frozen_on']: the recorded finding (train_nas_only / train_net_and_nas switch the frozen masks on, train_net_only switches them off again)
+    # as part of the reference, so that the exploration can go on past it: the deviation is reported at the call that introduces it, and anything
+    # the frozen masks do that is NOT explained by it is a different violation
     if op == 'train_nas_only':
         for k, c in cls.items():
             f[k] = c in nas
+        ref['frozen_on'] = True
     elif op == 'train_net_only':
         for k, c in cls.items():
             f[k] = c == 'net'
+        ref['frozen_on'] = False
     elif op == 'train_net_and_nas':
         for k, c in cls.items():
             f[k] = c != 'frozen'
+        ref['frozen_on'] = True
     elif op.startswith('train_') and '=' in op:
         name, val = op.split('=')
         c0 = {'train_features': 'features', 'train_rf': 'rf', 'train_dilation': 'dilation'}[name]
@@ -213,10 +223,12 @@ def check_state(method, w, cls, ref, last_op):
     for p in params:
         c = cls[id(p)]
         if c == 'frozen' and p.requires_grad:
+            if ref.get('frozen_on') and last_op not in ('train_nas_only', 'train_net_and_nas'):
+                continue        # explained by the recorded deviation introduced at an earlier step (reported there)
             return 'frozen_trainable', f'{names[id(p)]} (frozen by construction) has requires_grad=True after {last_op}'
         if c != 'frozen' and p.requires_grad != ref['flags'][id(p)]:
             return 'requires_grad', f'{names[id(p)]} ({c}) requires_grad={p.requires_grad}, expected {ref["flags"][id(p)]} after {last_op}'
-        if c == 'frozen' and last_op == 'fwd_bwd' and p.grad is not None and bool((p.grad != 0).any()):
+        if c == 'frozen' and last_op == 'fwd_bwd' and p.grad is not None and bool((p.grad != 0).any()) and not ref.get('frozen_on'):
             return 'frozen_gradient', f'{names[id(p)]} (frozen by construction) received a gradient'
     for n, sampler, hard, temp in observe(method, w):
         if method == 'MPS' and 'in_mps_quantizer' in n and False:
@@ -232,10 +244,12 @@ def check_state(method, w, cls, ref, last_op):
     return None
 
 
-def run_sequence(method, ops_idx):
+def run_sequence(method, ops_idx, stop_at_recorded=False):
+    """-> None, or the first violation that the recorded deviation does not explain, or (if there is none) the recorded deviation itself"""
     ops = {'PIT': PIT_OPS, 'MPS': MPS_OPS, 'SuperNet': SN_OPS}[method]
     w, shape = build(method)
     cls, ref = initial_ref(method, w)
+    recorded = []
     for k, i in enumerate(ops_idx):
         op = ops[i]
         try:
@@ -248,8 +262,11 @@ def run_sequence(method, ops_idx):
         apply_ref(method, cls, ref, op)
         prob = check_state(method, w, cls, ref, op)
         if prob is not None:
+            if prob[0] == 'frozen_trainable' and op in ('train_nas_only', 'train_net_and_nas') and not stop_at_recorded:
+                recorded.append((k, prob[0], prob[1]))
+                continue
             return (k, prob[0], prob[1])
-    return None
+    return recorded[0] if recorded else None
 
 
 def replay(rec):
@@ -268,10 +285,12 @@ def run_instance(p):
         ex.assume(length >= 1, length <= L)
         n = int(st.concretize_scalar(length))
         seq = [first]
+        subset = p.get('subset')
         for k in range(1, n):
             c = z3.Int(f'op{k}')
-            ex.assume(c >= 0, c < len(ops))
-            seq.append(int(st.concretize_scalar(c)))
+            ex.assume(c >= 0, c < (len(subset) if subset else len(ops)))
+            v = int(st.concretize_scalar(c))
+            seq.append(subset[v] if subset else v)
         return seq
     ex = Explorer(timeout_ms=30000)
     seen_keys = set()
